@@ -255,6 +255,15 @@ func init() {
 			a.run(c)
 			b := &rsearch{prefix: []ev.E{ev.EBD(), ev.EV(0)}, alphabet: c10Alphabet(), depth: c.Pick(6, 8), split: 2, checkPass: true, mcfg: rulesmodel.Config{LaxMarkers: true}}
 			b.run(c)
+			// a reused validator (complete / abandoned document, then Reset) must go on handing every accepted event on
+			for i, w := range c10Warmups() {
+				rs := &rsearch{warmup: w, tag: []string{"after-complete-doc-and-reset:", "after-aborted-doc-and-reset:"}[i], prefix: []ev.E{ev.EBD(), ev.EV(0)}, alphabet: c10Alphabet(),
+					depth: c.Pick(4, 6), split: 2, checkPass: true, mcfg: rulesmodel.Config{LaxMarkers: true}}
+				rs.run(c)
+				rx := &rsearch{warmup: w, tag: []string{"after-complete-doc-and-reset:", "after-aborted-doc-and-reset:"}[i], prefix: []ev.E{ev.EBD(), ev.EV(0)}, alphabet: c15Alphabet(),
+					depth: c.Pick(2, 3), split: 2, checkPass: true, mcfg: rulesmodel.Config{LaxMarkers: true}}
+				rx.run(c)
+			}
 			h := &rsearch{prefix: nil, alphabet: c10Alphabet(), depth: 4, split: 1, checkPass: true, mcfg: rulesmodel.Config{LaxMarkers: true}}
 			h.run(c)
 		},
@@ -294,6 +303,7 @@ func c15Alphabet() []ev.E {
 		ev.EUID(uidA), ev.ENaN(true), ev.ENaN(false),
 		ev.ETime(compact_time.NewDate(2000, 1, 15)), ev.ETime(compact_time.NewTime(23, 59, 59, 999999999, compact_time.TZAtAreaLocation("Europe/Berlin"))),
 		ev.ETime(compact_time.NewTimestamp(-2000, 12, 31, 0, 0, 0, 1, compact_time.TZAtLatLong(-1234, 5678))),
+		ev.ETime(compact_time.ZeroDate()), ev.ETime(compact_time.ZeroTime()), ev.ETime(compact_time.ZeroTimestamp()), ev.ETime(compact_time.Time{}),
 		ev.EStr(""), ev.EStr("aé€𝄞"), ev.EArr(events.ArrayTypeString, 2, []byte("ab")), ev.ESArr(events.ArrayTypeResourceID, "http://x"),
 		ev.EArr(events.ArrayTypeResourceID, 1, []byte("r")), ev.ESArr(events.ArrayTypeReferenceRemote, "http://y"),
 		ev.EArr(events.ArrayTypeUint8, 3, []byte{1, 2, 3}), ev.EArr(events.ArrayTypeUint16, 1, []byte{1, 2}), ev.EArr(events.ArrayTypeBit, 9, []byte{0xff, 0x01}),
